@@ -317,6 +317,7 @@ def c14(ctx):
         plan += [(HISTORIES[k], b, signal.SIGTERM, False, ("@release",)) for k in (0, 1, 3, 4) for b in ("tcp", "unix")]
         plan += [(HISTORIES[k], b, signal.SIGTERM, False, ("--max-requests", "3")) for k in (0, 1, 2, 3) for b in ("tcp", "unix")]
         plan += [(HISTORIES[k], b, signal.SIGTERM, False, ("@envargs",)) for k in (0, 1, 3, 4) for b in ("tcp", "unix")]
+        plan += [(HISTORIES[0], "tcp", signal.SIGTERM, False, ("@relcfg",))]
     from props.reload_real import _parallel
     results = _parallel(plan, lambda a, i: run_history(a[0], a[1], a[2], wk=rng.choice(["sync", "gthread"]), nopid=len(a) > 3 and a[3],
                                                            extra_args=a[4] if len(a) > 4 else ()), par=11)
